@@ -118,6 +118,19 @@ def hoists_ab(t):
     return False
 
 
+# fl = (flat groups around, flat fill items around, largest indentation of an enclosing flat group, re-decided flag)
+# re-decided flag: some scope between the innermost flat group and here chose BREAK at an indentation SMALLER than that flat group's
+NEG = -10 ** 9
+ZERO = (0, 0, NEG, 0)
+
+
+def redecided(fl, ind):
+    """fl for the content of a group / fill item that chose BREAK at indentation ind"""
+    if fl[0] > 0 and ind < fl[2]:
+        return (fl[0], fl[1], fl[2], 1)
+    return fl
+
+
 class Budget(Exception):
     pass
 
@@ -125,7 +138,8 @@ class Budget(Exception):
 class Matcher:
     """Non-deterministic stack machine. stack = linked list (frame, rest) or None,
     frame = (term, mode, indent, fl): mode is the choice of the nearest enclosing group / fill item (BREAK at top level),
-    fl the number of enclosing groups that were chosen flat. Every group and every fill item chooses on its own
+    fl = (number of enclosing groups chosen flat, number of enclosing fill items chosen flat - those do not count for the forcing clause, only for
+    recognising the listed findings -, largest indentation of an enclosing flat group, re-decided flag). Every group and every fill item chooses on its own
     (the statement quantifies over assignments of flat/broken to groups and fill items). strict: a hardline or an always_break
     is never rendered while fl > 0 ("forces every enclosing group to break"). lenient: a bare hardline may be rendered in a flat
     scope (what the engine does on purpose); the rest of the enclosing flat scopes is then unconstrained."""
@@ -146,6 +160,7 @@ class Matcher:
         self.stats = {'flat_groups': 0, 'broken_groups': 0, 'exact_fit': 0, 'c06_obligations': 0, 'smart_only': 0, 'forced_later': 0,
                       }
         self.used_lenient = False
+        self.used_redecided = False
 
     def push(self, frame, rest):
         key = (frame, id(rest))
@@ -156,9 +171,9 @@ class Matcher:
         return node
 
     def run(self):
-        return self.go(self.push((self.term, BREAK, 0, 0), None), 0)
+        return self.go(self.push((self.term, BREAK, 0, ZERO), None), 0)
 
-    def relax(self, stack):
+    def relax(self, stack, fl_h):
         """lenient only: a bare hardline was rendered inside a flat scope (a group or a fill item laid out flat because the
         engine's look-ahead stops at a hardline). Everything that is still pending of the enclosing flat scopes becomes
         unconstrained (mode ANY, no forcing obligation)."""
@@ -167,10 +182,30 @@ class Matcher:
         while node is not None:
             frames.append(node[0])
             node = node[1]
+        # The engine decides a fill's content item and the separator after it TOGETHER (the separator is flat iff content + separator
+        # fit): when the content item is laid out flat because the look-ahead stopped at the bare hardline, the separator that follows it
+        # was never looked at either - it belongs to the same flat scope although it is a fill item of its own here.
+        partner = None
+        n = fl_h[1]
+        if n > 0:
+            for i, (t, mode, ind, fl) in enumerate(frames):
+                if fl[1] >= n:
+                    continue          # still inside the innermost flat fill item
+                if not isinstance(t, str) and t[0] == 'fill' and len(t) > 2 and t[2] == 1 and t[1]:
+                    partner = i       # the continuation of that item's fill, next item = the separator decided together with it
+                break
         node = None
-        for (t, mode, ind, fl) in reversed(frames):
-            if mode == FLAT or fl > 0:
-                node = self.push((t, ANY if mode == FLAT else mode, ind, 0), node)
+        for i in range(len(frames) - 1, -1, -1):
+            (t, mode, ind, fl) = frames[i]
+            if i == partner:
+                if len(t[1]) > 1:
+                    if mode == FLAT or fl != ZERO:
+                        node = self.push((('fill', t[1][1:], 0), ANY if mode == FLAT else mode, ind, ZERO), node)
+                    else:
+                        node = self.push((('fill', t[1][1:], 0), mode, ind, fl), node)
+                node = self.push((t[1][0], ANY, ind, ZERO), node)
+            elif mode == FLAT or fl != ZERO:
+                node = self.push((t, ANY if mode == FLAT else mode, ind, ZERO), node)
             else:
                 node = self.push((t, mode, ind, fl), node)
         return node
@@ -211,12 +246,15 @@ class Matcher:
                 self.dead.add(key)
                 return False
             if k == 'hardline':
-                if fl > 0 and self.strict and self.forcing:
+                if fl[0] > 0 and self.strict and self.forcing:
                     self.dead.add(key)
                     return False
-                if self.forcing and not self.strict and (fl > 0 or mode != BREAK):
-                    self.used_lenient = True
-                    rest = self.relax(rest)
+                if self.forcing and not self.strict and (fl[0] > 0 or fl[1] > 0 or mode != BREAK):
+                    if fl[3] and mode == BREAK:
+                        self.used_redecided = True
+                    else:
+                        self.used_lenient = True
+                    rest = self.relax(rest, fl)
                 if pos < len(items) and items[pos] == ('nl', ind):
                     stack, pos = rest, pos + 1
                     continue
@@ -266,9 +304,13 @@ class Matcher:
                 self.dead.add(key)
                 return False
             if k == 'ab':
-                if fl > 0 and self.forcing:
-                    self.dead.add(key)
-                    return False
+                if fl[0] > 0 and self.forcing:
+                    if self.strict or not fl[3]:
+                        self.dead.add(key)
+                        return False
+                    # lenient: the always_break sits in a scope that the engine re-decided (and broke) inside a flat group because its
+                    # indentation is smaller than the flat group's - the second listed finding
+                    self.used_redecided = True
                 stack = self.push((t[1], BREAK, ind, fl), rest)
                 continue
             if k == 'group':
@@ -291,7 +333,7 @@ class Matcher:
             if self.st.line_end[pos] > limit:
                 flat_ok = False
         if flat_ok:
-            if self.go(self.push((content, FLAT, ind, fl + 1), rest), pos):
+            if self.go(self.push((content, FLAT, ind, (fl[0] + 1, fl[1], max(fl[2], ind), 0)), rest), pos):
                 self.stats['flat_groups'] += 1
                 if self.st.line_end[pos] == min(self.W, ind + self.R):
                     self.stats['exact_fit'] += 1
@@ -305,7 +347,7 @@ class Matcher:
                 self.stats['smart_only'] += 1
             elif verdict == 'forced':
                 self.stats['forced_later'] += 1
-        if self.go(self.push((content, BREAK, ind, fl), rest), pos):
+        if self.go(self.push((content, BREAK, ind, redecided(fl, ind)), rest), pos):
             self.stats['broken_groups'] += 1
             return True
         return False
@@ -314,12 +356,13 @@ class Matcher:
         items = t[1]
         if not items:
             return self.go(rest, pos)
+        par = t[2] if len(t) > 2 else 0       # parity of items[0] in the original fill: 0 = content, 1 = separator
         first, remaining = items[0], items[1:]
-        rest2 = self.push((('fill', remaining), mode, ind, fl), rest) if remaining else rest
+        rest2 = self.push((('fill', remaining, 1 - par), mode, ind, fl), rest) if remaining else rest
         # a flat fill item is not a group: the statement lets forced breaks force enclosing *groups* only
-        if self.go(self.push((first, FLAT, ind, fl), rest2), pos):
+        if self.go(self.push((first, FLAT, ind, (fl[0], fl[1] + 1, fl[2], fl[3])), rest2), pos):
             return True
-        return self.go(self.push((first, BREAK, ind, fl), rest2), pos)
+        return self.go(self.push((first, BREAK, ind, redecided(fl, ind)), rest2), pos)
 
 
 def would_fit(content, ind_g, rest, col, W, R, smart):
@@ -385,7 +428,9 @@ def would_fit(content, ind_g, rest, col, W, R, smart):
                 return 'forced'
             work.append((t[2], mode, ind, 0))
         elif k == 'group':
-            work.append((t[1], FLAT, ind, 0))
+            # a group whose content hoists an always_break no longer exists after the initial normalisation (Group(AlwaysBreak(x)) becomes
+            # AlwaysBreak(x), hoisted further up): the engine's look-ahead meets x in break mode, not a flat group
+            work.append((t[1], BREAK if hoists_ab(t[1]) else FLAT, ind, 0))
         elif k == 'ab':
             # reached through a concat/nest/group chain from the top: this marker was hoisted above the group under
             # consideration by the initial normalisation, the engine no longer sees it here - its content is broken
